@@ -17,8 +17,10 @@ import (
 	"github.com/MixinNetwork/mixin/common"
 	"github.com/MixinNetwork/mixin/config"
 	"github.com/MixinNetwork/mixin/crypto"
+	"github.com/MixinNetwork/mixin/storage"
 	"github.com/MixinNetwork/mixin/verifmc"
 	"github.com/MixinNetwork/mixin/verifmc/fixc"
+	"github.com/dgraph-io/ristretto/v2"
 )
 
 // C09 — a snapshot is final only with a threshold certificate from historical keys.
@@ -124,9 +126,15 @@ func c09Plausible(h []mcMemEvent) bool {
 
 // ---- reference membership model (plain replay of the events) -----------------------------
 
+// c09Predictive: the removal candidate is excluded from the signer set on every
+// network but mainnet, and on mainnet from the signer-set fork on.
+func c09Predictive(d *mcMemDriver, ts uint64) bool {
+	return d.Net.NetworkId.String() != config.KernelNetworkId || ts >= mainnetConsensusNodeRemovalSignerSetForkAt
+}
+
 func c09RefCandidate(d *mcMemDriver, ts uint64) (int, bool) {
 	e := d.Net.Epoch
-	if ts < e {
+	if ts < e || !c09Predictive(d, ts) {
 		return 0, false
 	}
 	hour := (ts - e) / mcMemHour % 24
@@ -469,88 +477,91 @@ func c09Query(t c09Target, ts uint64, ct *c09Cert) ([]crypto.Hash, bool) {
 	return t.chain.verifyFinalization(s)
 }
 
-func c09Run(c *verifmc.Check, hist []mcMemEvent) {
-	d, err := newMCMemDriver("")
-	if err != nil {
-		c.Require(false, "fixture: %v", err)
-		return
-	}
-	defer d.Close()
-	for _, e := range hist {
-		if err := d.Apply(e.Kind, e.TS); err != nil {
-			c09Ctr.refused.Add(1)
-			c.Outcome("history:refused-by-write-path")
-			return
-		}
-	}
-	c09Ctr.histories.Add(1)
-	c.Outcome("history:accepted-by-write-path")
-	names := mcMemHistString(hist, d.Net.Epoch)
-	c.Sample(map[string]any{"history": names})
+// c09RefSet is one key vector the certificate may have been verified against,
+// with its threshold. The generated network has one per (instant, chain); a
+// pre-fork mainnet instant inside the operation window has two (current and
+// legacy, i.e. from before the window).
+type c09RefSet struct {
+	keys []crypto.Key
+	ids  []crypto.Hash
+	T    int
+	name string
+}
 
-	qs := c09Instants(d)
-	targets := []c09Target{{chain: d.M.chainOf(d.Net.NodeIds[2]), nodeId: d.Net.NodeIds[2], round: 1, who: -1}}
-	for who := range d.Idents {
-		if d.Idents[who].Genesis {
-			continue
-		}
-		ch := d.M.Node.getOrCreateChain(d.Idents[who].Id)
-		if ch == nil {
-			c.Require(false, "no chain for pledged node %d", who)
-			return
-		}
-		targets = append(targets, c09Target{chain: ch, nodeId: d.Idents[who].Id, round: 0, who: who})
-	}
+type c09Exercise struct {
+	names   []string // rendering of the history / configuration
+	epoch   uint64
+	cache   interface{ Wait() }
+	qs      []uint64
+	targets []c09Target
+	refs    [][][]c09RefSet // [instant][target] -> alternatives (nil: pair not queried)
+	certs   []c09Cert
+}
 
-	// key sets of this history -> certificate list (union, de-duplicated)
-	type pairRef struct {
-		keys []crypto.Key
-		ids  []crypto.Hash
-		T    int
-		on   bool
-	}
-	refs := make([][]pairRef, len(qs))
-	var certs []c09Cert
+// c09CollectCerts adds the certificates of every key vector in refs.
+func (ex *c09Exercise) collectCerts() {
 	seenK := map[string]bool{}
 	seenC := map[string]bool{}
 	classes := map[string]bool{}
-	for qi, q := range qs {
-		refs[qi] = make([]pairRef, len(targets))
-		for ti, t := range targets {
-			if t.who >= 0 && !c09RefPledgingAt(d, t.who, q) {
-				continue
-			}
-			keys, ids, T := c09Ref(d, q, t.who)
-			refs[qi][ti] = pairRef{keys, ids, T, true}
-			if _, has := c09RefCandidate(d, q); has {
-				c09Ctr.withCandidate.Add(1)
-			}
-			if len(keys) == 0 {
-				continue
-			}
-			if int64(len(keys)) > c09Ctr.maxK.Load() {
-				c09Ctr.maxK.Store(int64(len(keys)))
-			}
-			kk := c09KeysKey(keys)
-			classes[fmt.Sprintf("%s|%d", kk, T)] = true
-			if seenK[kk] {
-				continue
-			}
-			seenK[kk] = true
-			for _, ct := range c09CertsFor(keys) {
-				ck := fmt.Sprintf("%d|%s|%s", ct.Mask, string(ct.Sig[:]), string(ct.Hash[:8]))
-				if !seenC[ck] {
-					seenC[ck] = true
-					certs = append(certs, ct)
+	for qi := range ex.qs {
+		for ti := range ex.targets {
+			for _, set := range ex.refs[qi][ti] {
+				if len(set.keys) == 0 {
+					continue
+				}
+				if int64(len(set.keys)) > c09Ctr.maxK.Load() {
+					c09Ctr.maxK.Store(int64(len(set.keys)))
+				}
+				kk := c09KeysKey(set.keys)
+				classes[fmt.Sprintf("%s|%d", kk, set.T)] = true
+				if seenK[kk] {
+					continue
+				}
+				seenK[kk] = true
+				for _, ct := range c09CertsFor(set.keys) {
+					ck := fmt.Sprintf("%d|%s|%s", ct.Mask, string(ct.Sig[:]), string(ct.Hash[:8]))
+					if !seenC[ck] {
+						seenC[ck] = true
+						ex.certs = append(ex.certs, ct)
+					}
 				}
 			}
 		}
 	}
 	c09Ctr.classes.Add(int64(len(classes)))
-	c.Distinct("history:" + strings.Join(names, ","))
+}
 
+type c09Verdict struct {
+	member, enough, sigOK bool
+	want                  []crypto.Hash
+}
+
+func (v c09Verdict) valid() bool { return v.member && v.enough && v.sigOK }
+
+func c09Judge(set *c09RefSet, ct *c09Cert) c09Verdict {
+	n := uint(len(set.keys))
+	var v c09Verdict
+	v.member = n > 0 && ct.Mask>>n == 0
+	v.enough = bits.OnesCount64(ct.Mask) >= set.T
+	if v.member {
+		var masked []crypto.Key
+		for j := uint(0); j < n; j++ {
+			if ct.Mask&(1<<j) != 0 {
+				masked = append(masked, set.keys[j])
+				v.want = append(v.want, set.ids[j])
+			}
+		}
+		v.sigOK = c09RefVerify(masked, ct.Sig, ct.Hash)
+	}
+	return v
+}
+
+// run issues every certificate at every (instant, target) pair three times and
+// applies the oracle.
+func (ex *c09Exercise) run(c *verifmc.Check) {
+	names, qs, targets, certs := ex.names, ex.qs, ex.targets, ex.certs
 	replay := func(q uint64, t c09Target, ct *c09Cert) map[string]any {
-		return map[string]any{"history": names, "timestamp_minus_epoch": int64(q) - int64(d.Net.Epoch), "chain": map[bool]string{true: "genesis-chain-round-1", false: "pledging-chain-round-0"}[t.who < 0],
+		return map[string]any{"history": names, "timestamp_minus_epoch": int64(q) - int64(ex.epoch), "chain": map[bool]string{true: "accepted-chain-round-1", false: "pledging-chain-round-0"}[t.who < 0],
 			"mask": fmt.Sprintf("%#x", ct.Mask), "signature": ct.Sig.String(), "hash": ct.Hash.String(), "kind": ct.Kind}
 	}
 
@@ -577,8 +588,8 @@ func c09Run(c *verifmc.Check, hist []mcMemEvent) {
 	for qi, q := range qs {
 		first[qi] = make([][]c09Result, len(targets))
 		for ti, t := range targets {
-			ref := refs[qi][ti]
-			if !ref.on {
+			sets := ex.refs[qi][ti]
+			if sets == nil {
 				continue
 			}
 			c09Ctr.instants.Add(1)
@@ -587,9 +598,7 @@ func c09Run(c *verifmc.Check, hist []mcMemEvent) {
 			}
 			res := make([]c09Result, len(certs))
 			first[qi][ti] = res
-			n := uint(len(ref.keys))
-			exactMet := false
-			hasExact := ref.T <= len(ref.keys)
+			exactMet := make([]bool, len(sets))
 			// pass 1: first time
 			for i := range certs {
 				ct := &certs[i]
@@ -598,84 +607,92 @@ func c09Run(c *verifmc.Check, hist []mcMemEvent) {
 				nQueries++
 				sinceWait++
 				if sinceWait >= 4000 {
-					d.M.Cache.Wait()
+					ex.cache.Wait()
 					sinceWait = 0
 				}
-				// reference verdict
-				member := ct.Mask>>n == 0 || n >= 64
+				// reference verdict: valid under one of the admissible key vectors
 				pop := bits.OnesCount64(ct.Mask)
-				enough := pop >= ref.T
-				sigOK := false
-				var want []crypto.Hash
-				if member {
-					var masked []crypto.Key
-					for j := uint(0); j < n; j++ {
-						if ct.Mask&(1<<j) != 0 {
-							masked = append(masked, ref.keys[j])
-							want = append(want, ref.ids[j])
-						}
+				best, bestV := &sets[0], c09Judge(&sets[0], ct)
+				for si := 1; si < len(sets) && !bestV.valid(); si++ {
+					v := c09Judge(&sets[si], ct)
+					if v.valid() || (v.member && v.sigOK && !(bestV.member && bestV.sigOK)) {
+						best, bestV = &sets[si], v
 					}
-					sigOK = c09RefVerify(masked, ct.Sig, ct.Hash)
 				}
-				valid := member && enough && sigOK
+				valid := bestV.valid()
+				n := len(best.keys)
 				if fin {
 					nAccepted++
 					outc["accept:"+ct.Kind]++
-					if valid && pop == ref.T && ct.Kind == "honest" {
-						exactMet = true
+					if best.name != "" {
+						outc["accept:under-"+best.name+"-key-vector"]++
+					}
+					if valid && ct.Kind == "honest" {
+						for si := range sets {
+							if pop == sets[si].T && c09Judge(&sets[si], ct).valid() {
+								exactMet[si] = true
+							}
+						}
 					}
 				} else {
 					nRejected++
 					switch {
 					case valid:
 						outc["reject:valid-certificate(stricter)"]++
-					case !member:
+					case !bestV.member:
 						outc["reject:names-non-member"]++
-					case !enough:
+					case !bestV.enough:
 						outc["reject:below-threshold"]++
 					default:
 						outc["reject:signature:"+ct.Kind]++
 					}
 				}
+				where := fmt.Sprintf("%v, epoch%+d", names, int64(q)-int64(ex.epoch))
+				if best.name != "" {
+					where += ", " + best.name + " key vector"
+				}
 				switch {
-				case fin && ref.T == c09Unreachable:
-					c.Violation("accepted:membership-below-minimum", fmt.Sprintf("verifyFinalization accepted a certificate at an instant where the reference membership has fewer than %d mature members (history %v)", config.KernelMinimumNodesCount, names), replay(q, t, ct))
-				case fin && !member:
-					c.Violation("accepted:mask-names-non-member:"+ct.Kind, fmt.Sprintf("verifyFinalization accepted mask %#x although the reference key set at the instant has only %d keys (history %v, epoch%+d)", ct.Mask, n, names, int64(q)-int64(d.Net.Epoch)), replay(q, t, ct))
-				case fin && !enough:
-					c.Violation("accepted:below-threshold:"+ct.Kind, fmt.Sprintf("verifyFinalization accepted %d signers, the reference threshold at the instant is %d of %d keys (history %v, epoch%+d)", pop, ref.T, n, names, int64(q)-int64(d.Net.Epoch)), replay(q, t, ct))
-				case fin && !sigOK:
-					c.Violation("accepted:signature-not-by-masked-keys:"+ct.Kind, fmt.Sprintf("verifyFinalization accepted a certificate (%s) whose signature does not verify over the presented hash for exactly the keys the mask names in the reference key set (mask %#x of %d keys, history %v, epoch%+d)", ct.Kind, ct.Mask, n, names, int64(q)-int64(d.Net.Epoch)), replay(q, t, ct))
-				case fin && c09Digest(want) != res[i].signers:
-					c.Violation("accepted:signers-differ-from-masked-members", fmt.Sprintf("verifyFinalization returned signers %v, the mask %#x names %v (history %v, epoch%+d)", signers, ct.Mask, want, names, int64(q)-int64(d.Net.Epoch)), replay(q, t, ct))
+				case fin && best.T == c09Unreachable:
+					c.Violation("accepted:membership-below-minimum", fmt.Sprintf("verifyFinalization accepted a certificate at an instant where the reference membership has fewer than %d mature members (history %s)", config.KernelMinimumNodesCount, where), replay(q, t, ct))
+				case fin && !bestV.member:
+					c.Violation("accepted:mask-names-non-member:"+ct.Kind, fmt.Sprintf("verifyFinalization accepted mask %#x although the reference key set at the instant has only %d keys (history %s)", ct.Mask, n, where), replay(q, t, ct))
+				case fin && !bestV.sigOK:
+					c.Violation("accepted:signature-not-by-masked-keys:"+ct.Kind, fmt.Sprintf("verifyFinalization accepted a certificate (%s) whose signature does not verify over the presented hash for exactly the keys the mask names in the reference key set (mask %#x of %d keys, history %s)", ct.Kind, ct.Mask, n, where), replay(q, t, ct))
+				case fin && !bestV.enough:
+					c.Violation("accepted:below-threshold:"+ct.Kind, fmt.Sprintf("verifyFinalization accepted %d signers, the reference threshold of the key set they belong to is %d of %d keys (history %s)", pop, best.T, n, where), replay(q, t, ct))
+				case fin && c09Digest(bestV.want) != res[i].signers:
+					c.Violation("accepted:signers-differ-from-masked-members", fmt.Sprintf("verifyFinalization returned signers %v, the mask %#x names %v (history %s)", signers, ct.Mask, bestV.want, where), replay(q, t, ct))
 				case !fin && valid:
 					nValidRejected++
 					strict["valid certificate rejected (kind "+ct.Kind+")"]++
 				}
 			}
-			if hasExact {
+			for si := range sets {
+				if sets[si].T > len(sets[si].keys) {
+					continue
+				}
 				c09Ctr.thresholdPairs.Add(1)
-				if exactMet {
+				if exactMet[si] {
 					c09Ctr.thresholdMet.Add(1)
 				} else {
 					strict["no honest exact-threshold certificate accepted at an instant where the reference threshold can be met"]++
 				}
 			}
 			// pass 2: remembered results
-			d.M.Cache.Wait()
+			ex.cache.Wait()
 			sinceWait = 0
 			for i := range certs {
 				signers, fin := c09Query(t, q, &certs[i])
 				nQueries++
 				if fin != res[i].fin || c09Digest(signers) != res[i].signers {
-					c.Violation("repetitions-disagree:second", fmt.Sprintf("the same query (kind %s, mask %#x) answered finalized=%v first and finalized=%v after cacheStore.Wait (history %v, epoch%+d)", certs[i].Kind, certs[i].Mask, res[i].fin, fin, names, int64(q)-int64(d.Net.Epoch)), replay(q, t, &certs[i]))
+					c.Violation("repetitions-disagree:second", fmt.Sprintf("the same query (kind %s, mask %#x) answered finalized=%v first and finalized=%v after cacheStore.Wait (history %v, epoch%+d)", certs[i].Kind, certs[i].Mask, res[i].fin, fin, names, int64(q)-int64(ex.epoch)), replay(q, t, &certs[i]))
 					break
 				}
 			}
 		}
 	}
 	// pass 3: everything again in reverse order, after all conflicting queries were issued
-	d.M.Cache.Wait()
+	ex.cache.Wait()
 	for qi := len(qs) - 1; qi >= 0; qi-- {
 		for ti := len(targets) - 1; ti >= 0; ti-- {
 			res := first[qi][ti]
@@ -686,7 +703,7 @@ func c09Run(c *verifmc.Check, hist []mcMemEvent) {
 				signers, fin := c09Query(targets[ti], qs[qi], &certs[i])
 				nQueries++
 				if fin != res[i].fin || c09Digest(signers) != res[i].signers {
-					c.Violation("repetitions-disagree:third", fmt.Sprintf("the same query (kind %s, mask %#x) answered finalized=%v first and finalized=%v after the conflicting queries (history %v, epoch%+d)", certs[i].Kind, certs[i].Mask, res[i].fin, fin, names, int64(qs[qi])-int64(d.Net.Epoch)), replay(qs[qi], targets[ti], &certs[i]))
+					c.Violation("repetitions-disagree:third", fmt.Sprintf("the same query (kind %s, mask %#x) answered finalized=%v first and finalized=%v after the conflicting queries (history %v, epoch%+d)", certs[i].Kind, certs[i].Mask, res[i].fin, fin, names, int64(qs[qi])-int64(ex.epoch)), replay(qs[qi], targets[ti], &certs[i]))
 					qi = -1
 					break
 				}
@@ -711,6 +728,57 @@ func c09Run(c *verifmc.Check, hist []mcMemEvent) {
 			outc["reject:no-certificate"]++
 		}
 	}
+}
+
+func c09Run(c *verifmc.Check, hist []mcMemEvent) {
+	d, err := newMCMemDriver("")
+	if err != nil {
+		c.Require(false, "fixture: %v", err)
+		return
+	}
+	defer d.Close()
+	for _, e := range hist {
+		if err := d.Apply(e.Kind, e.TS); err != nil {
+			c09Ctr.refused.Add(1)
+			c.Outcome("history:refused-by-write-path")
+			return
+		}
+	}
+	c09Ctr.histories.Add(1)
+	c.Outcome("history:accepted-by-write-path")
+	names := mcMemHistString(hist, d.Net.Epoch)
+	c.Sample(map[string]any{"history": names})
+
+	ex := &c09Exercise{names: names, epoch: d.Net.Epoch, cache: d.M.Cache, qs: c09Instants(d)}
+	ex.targets = []c09Target{{chain: d.M.chainOf(d.Net.NodeIds[2]), nodeId: d.Net.NodeIds[2], round: 1, who: -1}}
+	for who := range d.Idents {
+		if d.Idents[who].Genesis {
+			continue
+		}
+		ch := d.M.Node.getOrCreateChain(d.Idents[who].Id)
+		if ch == nil {
+			c.Require(false, "no chain for pledged node %d", who)
+			return
+		}
+		ex.targets = append(ex.targets, c09Target{chain: ch, nodeId: d.Idents[who].Id, round: 0, who: who})
+	}
+	ex.refs = make([][][]c09RefSet, len(ex.qs))
+	for qi, q := range ex.qs {
+		ex.refs[qi] = make([][]c09RefSet, len(ex.targets))
+		for ti, t := range ex.targets {
+			if t.who >= 0 && !c09RefPledgingAt(d, t.who, q) {
+				continue
+			}
+			keys, ids, T := c09Ref(d, q, t.who)
+			ex.refs[qi][ti] = []c09RefSet{{keys: keys, ids: ids, T: T}}
+			if _, has := c09RefCandidate(d, q); has {
+				c09Ctr.withCandidate.Add(1)
+			}
+		}
+	}
+	ex.collectCerts()
+	c.Distinct("history:" + strings.Join(names, ","))
+	ex.run(c)
 	m := d.M.Cache.Metrics
 	c09Ctr.cacheHits.Add(int64(m.Hits()))
 	c09Ctr.cacheMisses.Add(int64(m.Misses()))
@@ -718,14 +786,156 @@ func c09Run(c *verifmc.Check, hist []mcMemEvent) {
 	c.Eval(1)
 }
 
+// ---- mainnet network id: pre-fork legacy retry and the fork boundary ---------------------
+
+// c09LegacyStore serves synthetic node records to the real LoadConsensusNodes.
+type c09LegacyStore struct {
+	storage.Store // nil: every other method panics
+	nodes         []*common.Node
+}
+
+func (s *c09LegacyStore) ReadAllNodes(threshold uint64, withState bool) []*common.Node {
+	out := make([]*common.Node, len(s.nodes))
+	for i, n := range s.nodes {
+		cp := *n
+		out[i] = &cp
+	}
+	return out
+}
+
+type c09LegacyConfig struct {
+	n        int  // accepted founding members
+	recent   bool // one more member accepted 2 h before the pre-fork window (mature, not ready)
+	scenario int  // 0 removal 30 s into the last pre-fork window, 1 removal 30 s after the fork, 2 no removal
+}
+
+func (cf c09LegacyConfig) String() string {
+	return fmt.Sprintf("mainnet-id:n=%d:recent=%v:%s", cf.n, cf.recent, []string{"removal-in-last-pre-fork-window", "removal-in-first-post-fork-window", "no-removal"}[cf.scenario])
+}
+
+var c09LegacyAccepted, c09LegacyQueries atomic.Int64
+
+// c09RunLegacy: a node with the MAINNET network id and synthetic records (as
+// kernel/removal_consensus_test.go builds it, but through the real
+// LoadConsensusNodes over a stub store). Before the signer-set fork, inside the
+// operation window, verifyFinalization retries with the key vector from before
+// the window; the oracle admits either vector with its own threshold.
+func c09RunLegacy(c *verifmc.Check, cf c09LegacyConfig) {
+	fork := uint64(mainnetConsensusNodeRemovalSignerSetForkAt)
+	epoch := fork - 100*mcMemDay - uint64(config.KernelNodeAcceptTimeBegin)*mcMemHour
+	wp := fork - mcMemDay // opening of the last pre-fork window
+	networkId, err := crypto.HashFromString(config.KernelNetworkId)
+	if err != nil {
+		panic(err)
+	}
+	d := &mcMemDriver{Net: &fixc.Net{Epoch: epoch, NetworkId: networkId}}
+	st := &c09LegacyStore{}
+	genesis := map[crypto.Hash]bool{}
+	add := func(who int, state string, ts uint64) {
+		id := d.Idents[who]
+		tx := crypto.Blake3Hash([]byte(fmt.Sprintf("c09-legacy-tx-%d-%s-%d", who, state, ts)))
+		d.Recs = append(d.Recs, mcMemRec{Who: who, State: state, TS: ts, Tx: tx})
+		st.nodes = append(st.nodes, &common.Node{Signer: fixc.Pub(id.Signer), Payee: fixc.Pub(id.Payee), State: state, Transaction: tx, Timestamp: ts})
+	}
+	ident := func(i int, gen bool) int {
+		id := mcMemIdent{Signer: fixc.NodeAddr(fmt.Sprintf("mem-signer-%d", 7+i)), Payee: fixc.NodeAddr(fmt.Sprintf("mem-payee-%d", 7+i)), Genesis: gen}
+		id.Id = id.Signer.Hash().ForNetwork(networkId)
+		d.Idents = append(d.Idents, id)
+		if gen {
+			genesis[id.Id] = true
+		}
+		return len(d.Idents) - 1
+	}
+	for i := 0; i < cf.n; i++ {
+		add(ident(i, true), common.NodeStateAccepted, epoch+uint64(i))
+	}
+	if cf.recent {
+		add(ident(cf.n, false), common.NodeStateAccepted, wp-2*mcMemHour)
+	}
+	removal := uint64(0)
+	switch cf.scenario {
+	case 0:
+		removal = wp + 30*mcMemSecond
+	case 1:
+		removal = fork + 30*mcMemSecond
+	}
+	if removal != 0 {
+		add(0, common.NodeStateRemoved, removal)
+	}
+	cache, err := ristretto.NewCache(&ristretto.Config[[]byte, any]{NumCounters: 1e5, MaxCost: 1 << 26, BufferItems: 64, Metrics: true})
+	if err != nil {
+		panic(err)
+	}
+	defer cache.Close()
+	node := &Node{Epoch: epoch, networkId: networkId, persistStore: st, genesisNodesMap: genesis, cacheStore: cache}
+	if err := node.LoadConsensusNodes(); err != nil {
+		c.Require(false, "legacy fixture: %v", err)
+		return
+	}
+	chainId := d.Idents[1].Id
+	ex := &c09Exercise{names: []string{cf.String()}, epoch: epoch, cache: cache}
+	ex.targets = []c09Target{{chain: &Chain{node: node, ChainId: chainId}, nodeId: chainId, round: 1, who: -1}}
+	w := c09WindowLen
+	set := map[uint64]bool{}
+	for _, q := range []uint64{wp - mcMemHour, wp - 1, wp, wp + 1, wp + 30*mcMemSecond, wp + 30*mcMemSecond + 1, wp + 61*mcMemSecond, wp + mcMemHour, wp + 2*mcMemHour + 5, wp + w - 1, wp + w,
+		fork - 1, fork, fork + 1, fork + 30*mcMemSecond + 1, fork + 61*mcMemSecond, fork + mcMemHour, fork + w - 1, fork + w, fork + mcMemDay, fork + mcMemDay + mcMemHour} {
+		set[q] = true
+	}
+	for q := range set {
+		ex.qs = append(ex.qs, q)
+	}
+	sort.Slice(ex.qs, func(i, j int) bool { return ex.qs[i] < ex.qs[j] })
+	ex.refs = make([][][]c09RefSet, len(ex.qs))
+	minT := c09Unreachable
+	for qi, q := range ex.qs {
+		keys, ids, T := c09Ref(d, q, -1)
+		sets := []c09RefSet{{keys: keys, ids: ids, T: T, name: "current"}}
+		hour := (q - epoch) / mcMemHour % 24
+		if !c09Predictive(d, q) && hour >= config.KernelNodeAcceptTimeBegin && hour <= config.KernelNodeAcceptTimeEnd {
+			legacyTS := q - (hour+1-config.KernelNodeAcceptTimeBegin)*mcMemHour
+			lk, li, lt := c09Ref(d, legacyTS, -1)
+			sets = append(sets, c09RefSet{keys: lk, ids: li, T: lt, name: "legacy"})
+		}
+		for _, s := range sets {
+			if s.T < minT {
+				minT = s.T
+			}
+		}
+		ex.refs[qi] = [][]c09RefSet{sets}
+		if _, has := c09RefCandidate(d, q); has {
+			c09Ctr.withCandidate.Add(1)
+		}
+	}
+	ex.collectCerts()
+	// all masks naming at least (smallest threshold - 2) signers
+	kept := ex.certs[:0]
+	for _, ct := range ex.certs {
+		if bits.OnesCount64(ct.Mask&^(1<<63)) >= minT-2 {
+			kept = append(kept, ct)
+		}
+	}
+	ex.certs = kept
+	c.Distinct(cf.String())
+	c.Sample(map[string]any{"configuration": cf.String(), "instants": len(ex.qs), "certificates": len(ex.certs)})
+	ex.run(c)
+	m := cache.Metrics
+	c09Ctr.cacheHits.Add(int64(m.Hits()))
+	c09Ctr.cacheMisses.Add(int64(m.Misses()))
+	c09Ctr.drops.Add(int64(m.SetsDropped() + m.SetsRejected()))
+	c09LegacyQueries.Add(int64(len(ex.qs)) * int64(len(ex.certs)) * 3)
+	c.Outcome("configuration:mainnet-id")
+	c.Eval(1)
+}
+
 func TestMC_C09(t *testing.T) {
 	c := verifmc.Start(t, "C09", "exploration")
 	defer c.Finish()
 	depth := verifmc.Pick(c, 2, 3)
-	c.SetRule("all membership histories of <= " + fmt.Sprint(depth) + " real finalized events {pledge, accept, cancel, remove-oldest} at the boundary offsets of their day's operation window that the write path accepts; per history every record / maturity (30 s, 12 h) / window boundary instant (+-1 ns) x {genesis chain round 1, pledging chain round 0 while pledging} x every non-empty mask over every key set of the history (|K| 7..9) x {honest CoSi over h1 and h2, shown with the other hash, with mask +1/-1/moved bit, + bit |K|, + bit 63, zero signature, wrong s}; each query three times on one node (first, after cacheStore.Wait, reverse order after all conflicting queries); a distinct case is a distinct history")
+	c.SetRule("all membership histories of <= " + fmt.Sprint(depth) + " real finalized events {pledge, accept, cancel, remove-oldest} at the boundary offsets of their day's operation window that the write path accepts; per history every record / maturity (30 s, 12 h) / window boundary instant (+-1 ns) x {genesis chain round 1, pledging chain round 0 while pledging} x every non-empty mask over every key set of the history (|K| 7..9) x {honest CoSi over h1 and h2, shown with the other hash, with mask +1/-1/moved bit, + bit |K|, + bit 63, zero signature, wrong s}; each query three times on one node (first, after cacheStore.Wait, reverse order after all conflicting queries); plus nodes with the MAINNET network id and synthetic records (8..11 founding members, optionally one recent member, a removal 30 s into the last pre-fork window / the first post-fork window / none) at 21 instants around both windows with every mask naming >= threshold-2 signers over the current and the legacy key vector; a distinct case is a distinct history / configuration")
 	c.Assume("events are finalized at the storage layer (LockInputs, WriteTransaction, WriteSnapshot on a genesis chain) followed by the real LoadConsensusNodes; the real clock (years after the fixture epoch) is 'now' for chain identities",
 		"the snapshot hash is an input of verifyFinalization: the same two hashes are presented at every instant",
-		"reference key set / threshold: plain replay of the events (accepted members, 12 h readiness, 30 s maturity, predictable removal candidate inside the operation window, base*2/3+1, minimum 7); only acceptances that the reference rejects are violations")
+		"reference key set / threshold: plain replay of the events (accepted members, 12 h readiness, 30 s maturity, predictable removal candidate inside the operation window, base*2/3+1, minimum 7); only acceptances that the reference rejects are violations",
+		"mainnet id before the signer-set fork, inside the operation window: a certificate may also be valid for the key vector from before the window with that vector's own threshold (legacy rule)")
 	hs := c09Histories(mcNet7.Epoch, depth)
 	var list [][]mcMemEvent
 	for _, h := range hs {
@@ -737,12 +947,30 @@ func TestMC_C09(t *testing.T) {
 	sort.SliceStable(list, func(i, j int) bool { return len(list[i]) > len(list[j]) })
 	c.Set("histories_enumerated", len(hs))
 	c.Set("histories_structurally_possible", len(list))
-	c.ParallelN(len(list), "histories", func(w, i int) {
+	// mainnet-id configurations (pre-fork legacy retry, fork boundary)
+	var legacy []c09LegacyConfig
+	for scenario := 0; scenario < 3; scenario++ {
+		if c.Thorough() {
+			for n := 8; n <= 11; n++ {
+				legacy = append(legacy, c09LegacyConfig{n, false, scenario}, c09LegacyConfig{n, true, scenario})
+			}
+		} else {
+			legacy = append(legacy, c09LegacyConfig{9, false, scenario}, c09LegacyConfig{8, true, scenario}, c09LegacyConfig{10, false, scenario})
+		}
+	}
+	c.Set("mainnet_id_configurations", len(legacy))
+	c.ParallelN(len(legacy)+len(list), "histories", func(w, i int) {
 		if c.Violations() >= 8 || c.Expired("histories") {
 			return
 		}
-		c09Run(c, list[i])
+		if i < len(legacy) {
+			c09RunLegacy(c, legacy[i])
+			return
+		}
+		c09Run(c, list[i-len(legacy)])
 	})
+	c.Set("mainnet_id_queries", c09LegacyQueries.Load())
+	c.Set("accepted_under_legacy_key_vector", c.OutcomeCount("accept:under-legacy-key-vector"))
 	k := &c09Ctr
 	c.Set("histories_accepted_by_write_path", k.histories.Load())
 	c.Set("histories_refused_by_write_path", k.refused.Load())
@@ -769,5 +997,6 @@ func TestMC_C09(t *testing.T) {
 	c.Require(k.thresholdMet.Load() == k.thresholdPairs.Load(), "honest exact-threshold certificates were accepted at only %d of the %d (instant, chain) pairs where the reference threshold can be met", k.thresholdMet.Load(), k.thresholdPairs.Load())
 	c.Require(k.cacheHits.Load() > k.queries.Load()/2, "remembered results were not exercised: %d cache hits for %d queries", k.cacheHits.Load(), k.queries.Load())
 	c.Require(k.pledgingQueries.Load() > 0 && k.withCandidate.Load() > 0 && k.maxK.Load() >= 8, "pledging chain / removal window / grown key set not reached (%d, %d, %d)", k.pledgingQueries.Load(), k.withCandidate.Load(), k.maxK.Load())
+	c.Require(c.OutcomeCount("accept:under-legacy-key-vector") > 0 && c.OutcomeCount("accept:under-current-key-vector") > 0, "mainnet-id part: the legacy retry was not reached (%d / %d)", c.OutcomeCount("accept:under-legacy-key-vector"), c.OutcomeCount("accept:under-current-key-vector"))
 	c.Require(c.OutcomeCount("accept:honest") > 0 && c.OutcomeCount("accept:honest-h2") > 0, "no honest certificate accepted")
 }
